@@ -54,6 +54,29 @@ def real_kill(B, shim, wd, L, W, stubborn=False):
     shutil.rmtree(d, ignore_errors=True)
     return {'e': 'Kill', 'L': L, 'W': W, 'stubborn': stubborn, 'wallms': int(wall * 1000), 'jsig': int(ms.group(1)) if ms else 0, 'jexit': int(m.group(1)) if m else -1}
 
+def locked_kill(B, shim, wd, L, W, hold):
+    """sleep W under limit L while another process holds the lock of the journal file (as another run of the same task that is just
+    writing its entry does) for hold seconds from the start: the entry has to be there once the lock is released"""
+    d = tempfile.mkdtemp(prefix='l', dir=wd)
+    v = '\n'.join(['BEGIN:VCALENDAR', 'VERSION:2.0', 'BEGIN:VTODO', 'UID:lock-%d-%d' % (L, W), 'SUMMARY:sleep %d' % W, 'X-ECHS-SETUID:%d' % os.getuid(), 'X-ECHS-SETGID:%d' % os.getgid(),
+                   'X-ECHS-SHELL:/bin/sh', 'LOCATION:' + d, 'DURATION:PT%dS' % L, 'X-ECHS-UMASK:022', 'X-ECHS-MAIL-RUN:0', 'X-ECHS-MAIL-OUT:0', 'X-ECHS-MAIL-ERR:0', 'ORGANIZER:echse', 'END:VTODO', 'END:VCALENDAR', ''])
+    env = dict(os.environ, XSHIM_DIR=d, XSHIM_MAILER=execrun.MAILER, LD_PRELOAD=shim)
+    jf = d + '/echsj.ics'; open(jf, 'w').close()
+    holder = subprocess.Popen(['python3', '-c', 'import fcntl,sys,time\nf=open(sys.argv[1],"a")\nfcntl.lockf(f,fcntl.LOCK_EX)\nprint("held",flush=True)\ntime.sleep(float(sys.argv[2]))', jf, str(hold)], stdout=subprocess.PIPE, text=True)
+    holder.stdout.readline()
+    t0 = time.time()
+    with open(jf, 'a') as jo:
+        try:
+            p = subprocess.run([f'{B}/echsx', '-v'], input=v, stdout=jo, stderr=subprocess.PIPE, text=True, timeout=W + hold + 30, env=env); rc = p.returncode
+        except subprocess.TimeoutExpired:
+            rc = -99
+    wall = time.time() - t0
+    holder.wait()
+    jr = open(jf).read()
+    m = re.search(r'^X-EXIT-STATUS:(\d+)', jr, re.M); ms = re.search(r'^X-SIGNAL:(\d+)', jr, re.M)
+    shutil.rmtree(d, ignore_errors=True)
+    return {'e': 'KillLocked', 'L': L, 'W': W, 'holdms': int(hold * 1000), 'wallms': int(wall * 1000), 'rc': rc, 'jentries': jr.count('BEGIN:VTODO'), 'jsig': int(ms.group(1)) if ms else 0, 'jexit': int(m.group(1)) if m else -1}
+
 def run(tier, seed):
     t0 = time.time()
     wd = vlib.workdir(PID)
@@ -125,6 +148,10 @@ def run(tier, seed):
     kills = [lw + (False,) for lw in kills] + [(1, 30, True), (2, 6, True)]
     with cf.ThreadPoolExecutor(max_workers=len(kills)) as ex:
         recs += list(ex.map(lambda lw: real_kill(B, shim, xd, *lw), kills))
+    # the same while the journal is locked by someone else past the end of the job: the record of the termination waits for the lock
+    lk = [(1, 30, 3.5), (2, 1, 3.5), (1, 30, 1.6), (3, 1, 3.4)] + ([(2, 30, 4.5), (1, 30, 2.5), (4, 1, 5.5), (2, 30, 2.2)] if tier == 'thorough' else [])
+    with cf.ThreadPoolExecutor(max_workers=len(lk)) as ex:
+        recs += list(ex.map(lambda a: locked_kill(B, shim, xd, *a), lk))
     # E3 on the executor loop: requests with several VTODOs taken from ExecSeqE1's request set, run by one real echsx each
     TS = [{'L': l, 'W': w, 'prep': p} for l in (0, 1, 2) for w in (1, 2, 3) for p in (True, False) if l != w]
     reqs = [[{'L': 1, 'W': 2, 'prep': False}, {'L': 0, 'W': 2, 'prep': True}],                       # a task that cannot start, then one without limit
